@@ -104,3 +104,9 @@ pub assume_specification<'a, K, V, S, A, Q>[HashMap::<K, V, S, A>::get_mut](m: &
 } // mod std_maps_shim
 pub use std_maps_shim::*;
 // ---- end assumed std map specs ---------------------------------------------------------------------------------------
+
+// Option::{is_some_and, is_none_or} (not in vstd): the closure is applied to the payload of `Some`; what it answers is whatever its own
+// (verified) body ensures -- a closure without a spec header answers an unknown bool
+pub assume_specification<T, F: FnOnce(T) -> bool>[Option::<T>::is_some_and](o: Option<T>, f: F) -> (r: bool)
+    requires o matches Some(v) ==> call_requires(f, (v,)),
+    ensures o is None ==> !r, o matches Some(v) ==> call_ensures(f, (v,), r);
